@@ -1,3 +1,4 @@
+from amqpstorm.compatibility import quote
 from amqpstorm.management.base import ManagementHandler
 
 HEALTHCHECKS = 'healthchecks/node/'
@@ -22,4 +23,4 @@ class HealthChecks(ManagementHandler):
         """
         if not node:
             return self.http_client.get(HEALTHCHECKS)
-        return self.http_client.get(HEALTHCHECKS_NODE % node)
+        return self.http_client.get(HEALTHCHECKS_NODE % quote(node, ''))
